@@ -128,7 +128,7 @@ def version_request_cases():
 
 def eci_cases():
     cases = []
-    for enc in ('iso-8859-1', 'utf-8', 'cp1252', None):
+    for enc in ('iso-8859-1', 'utf-8', 'cp1252', None, 'latin1', 'ISO-8859-1'):
         for lvl in (None, 'L', 'M', 'Q', 'H'):
             for micro in (None, False):
                 for v in range(1, 41):
@@ -169,6 +169,9 @@ def check_enumerated(case):
     lvl, micro, eci = kw.get('error'), kw.get('micro'), bool(kw.get('eci'))
     enc = kw.get('encoding')
     hdr = eci and mode == 'byte' and enc not in (None, 'iso-8859-1')
+    # other spellings of ISO 8859-1: the statement counts the header "where one is written"; whether one is
+    # written for an alias is read from the returned symbol, on a refusal both readings are considered
+    alias = bool(hdr and gens_codec(enc) == 'iso8859-1')
     nbytes = n * (2 if mode in ('kanji', 'hanzi') else 1)
     segs = [(mode, nbytes, hdr)]
     req = _requested_version(kw)
@@ -178,11 +181,21 @@ def check_enumerated(case):
         use = admissible(req, lvl, micro, eci)
         c = cost(req, segs)
         exp = req if (use is not False and c is not None and c <= R.data_capacity_bits(req, use)) else None
+    def expectation(segs_):
+        if req is None:
+            return ref_version(segs_, lvl, micro, eci)
+        use_ = admissible(req, lvl, micro, eci)
+        c_ = cost(req, segs_)
+        return req if (use_ is not False and c_ is not None and c_ <= R.data_capacity_bits(req, use_)) else None
     labels = [case['kind'], 'mode-' + mode, 'expect-overflow' if exp is None else version_class(exp)]
+    if alias:
+        labels.append('latin1-alias')
     devs = []
     try:
         qr = call(segno.make, content, **kw)
     except Refused as ex:
+        if alias and expectation([(mode, nbytes, True)]) is None:
+            exp = None
         if exp is not None:
             devs.append(Dev('C04/fitting-content-refused', '%s x %d with %s should give version %s: %s' % (mode, n, kw, exp, ex)))
         elif not isinstance(ex.exc, segno.DataOverflowError) and \
@@ -194,6 +207,10 @@ def check_enumerated(case):
     except Crash as ex:
         return Outcome([Dev('C04/crash-' + ex.key, str(ex))], labels, True)
     got = qr.version
+    if alias:
+        d0, _ = decode_symbol('C04', qr)
+        if d0 is not None:
+            exp = expectation([(mode, nbytes, any(s_['eci'] is not None for s_ in d0['segments']))])
     if exp is None:
         devs.append(Dev('C04/overflow-accepted', '%s x %d with %s does not fit anything admissible, got version %s' % (mode, n, kw, got)))
     elif got != exp:
